@@ -37,11 +37,11 @@ HARNESSES = [
     # quick: history and window each <= 64 bytes (object size symbolic), both loops by contract (~180-220 s;
     # splitting the obligations over two entries with properties=[...] was measured and is slower: 139 s + 304 s)
     H('decode_loop', ['C06', 'C07', 'C05'], SRC, INF, enforce='decode_huffman_code_block_stateless_base', replace=REPL,
-      defines=['DL_RECORD', 'DL_OUT_SIZE=64', 'DL_LOOKBACK_STRICT'], also=['C02'], timeout=2400, solver='cadical', object_bits=9,
+      defines=['DL_RECORD', 'DL_OUT_SIZE=64', 'DL_LOOKBACK_STRICT', 'DL_M1_STRICT'], also=['C02'], timeout=2400, solver='cadical', object_bits=9,
       extra_cbmc=SLICE, expect=EXPECT, trusted=TRUST, replay=('decode_loop.c', 'decode_loop_lookback_strict'), bounds=QB),
     # thorough: history and window up to 2^32-1 bytes
     H('decode_loop_unbounded', ['C06', 'C07', 'C05'], SRC, INF, enforce='decode_huffman_code_block_stateless_base',
-      entry='h_decode_loop', replace=REPL, defines=['DL_RECORD', 'DL_OUT_SIZE=0xffffffffu', 'DL_LOOKBACK_STRICT'], also=['C02'], tier='thorough',
+      entry='h_decode_loop', replace=REPL, defines=['DL_RECORD', 'DL_OUT_SIZE=0xffffffffu', 'DL_LOOKBACK_STRICT', 'DL_M1_STRICT'], also=['C02'], tier='thorough',
       timeout=3600, solver='cadical', object_bits=9, extra_cbmc=SLICE, expect=EXPECT, trusted=TRUST,
       replay=('decode_loop.c', 'decode_loop'),
       bounds='history and avail_out any uint32 value; input length, bit buffer, tables and symbols arbitrary; no unwinding'),
